@@ -56,6 +56,8 @@ def generic_inputs(fd, seed=0, presentation="tensors"):
             d["beta" + n] = beta[i].copy()
             d["dtbeta" + n] = dtbeta[i].copy()
         return d
+    if presentation == "partial":
+        return {"gammadown3": gam, "Kdown3": K, "alpha": alpha, "betay": beta[1].copy(), "betaz": beta[2].copy(), "Tdown4": T}
     if presentation == "minimal":
         return {"gammadown3": gam, "Kdown3": K, "alpha": alpha, "rho": rho0 * (1 + eps)}
     raise ValueError(presentation)
